@@ -115,7 +115,9 @@ def find_version_table(path):
     hid = re.search(r"GD_EN_HIDDEN\)\s*D->av &= GD_VERS_GE_(\d+)", body)
     if not hid:
         problems.append("PROBLEM hidden-flag rule of _GD_FindVersion not found")
-    return sorted(table.items()), (int(hid.group(1)) if hid else 0)
+    # is the per-type rule skipped for hidden entries (if (hidden) ...; else switch ...)?
+    skips = bool(re.search(r"GD_EN_HIDDEN\)\s*D->av &= GD_VERS_GE_\d+;\s*else\s*switch \(D->entry\[i\]->field_type\)", body))
+    return sorted(table.items()), (int(hid.group(1)) if hid else 0), skips
 
 
 def parser_gates(path):
@@ -171,7 +173,7 @@ def main():
     fs = double_sites(os.path.join(REPO, "src", "flush.c"))
     asc = double_sites(os.path.join(REPO, "src", "ascii.c"))
     fv = find_version_table(os.path.join(REPO, "src", "flush.c"))
-    wmin, hidden_min = fv if fv else ([], 0)
+    wmin, hidden_min, hidden_skips = fv if fv else ([], 0, False)
     pg = parser_gates(os.path.join(REPO, "src", "parse.c"))
     gates, dirs = pg if pg else ([], [])
     wdirs = writer_directive_gates(os.path.join(REPO, "src", "flush.c"))
@@ -198,6 +200,9 @@ def main():
     table("writer_min_version", wmin, "entry type -> smallest Standards Version _GD_FindVersion allows for a database containing it")
     table("parser_gate", gates, "keyword -> GD_PVERS_GE gate in _GD_ParseFieldSpec")
     table("writer_directive_from", wdirs + [("HIDDEN_FLAG_MIN", hidden_min)], "directive -> Standards Version from which the writer emits it; HIDDEN_FLAG_MIN = version _GD_FindVersion demands for a hidden entry")
+    lines.append("(* true when _GD_FindVersion applies the per-type version rule only to entries that are not hidden *)")
+    lines.append("Definition hidden_skips_type_rule : bool := %s." % ("true" if hidden_skips else "false"))
+    lines.append("")
     table("parser_directive_gate", dirs, "directive -> GD_PVERS_GE gate in _GD_ParseDirective")
     os.makedirs(os.path.dirname(OUT), exist_ok=True)
     txt = "\n".join(lines) + "\n"
@@ -205,6 +210,7 @@ def main():
     if old != txt:
         open(OUT, "w").write(txt)
     wc = [d for f, fn, ln, cv, d in fs if fn == "_GD_WriteConst"]
+    print("HIDDEN_SKIPS %d" % (1 if hidden_skips else 0))
     print("FLUSH_DIGITS %d" % (min(wc) if wc else (min(d for *_, d in fs) if fs else 0)))
     print("flush sites: %d  ascii sites: %d  writer_min_version: %d  parser_gate: %d" % (len(fs), len(asc), len(wmin), len(gates)))
     for p in problems:
